@@ -83,45 +83,53 @@ def walkLevel (s : Sys) (k : Key) (x : Nat) : WalkSt → WalkSt
     | e => .searching (ns ++ [x]) e
   | st => st                                           -- the parent's entry has a value: own map not consulted
 
+/-- a thread starts its next operation (it was parked at the harness's "op" point) -/
+def startOp (s : Sys) (log : List (Ans × Src)) (rest : List Op) : Op → Sys × Thread
+  | .load l n =>
+    if n.auth ≠ runtimeAuthority then (s, { pc := .idle, ops := rest, log := log ++ [(.notfound, none)] })
+    else (s, { pc := .loadWalk l n (chain s.ps l).reverse (.searching [] none), ops := rest, log := log })
+  | .define l n v => ((define s l n v).1, { pc := .idle, ops := rest, log := log ++ [((define s l n v).2, none)] })
+  | .has l n => (s, { pc := .hasWalk l (canon n) (chain s.ps l).reverse, ops := rest, log := log })
+  | .get l n => (s, { pc := .getHold l (canon n) (lk (canon n) (s.ents l)), ops := rest, log := log })
+  | .discover l p => (s, { pc := .discWalk l p (chain s.ps l).reverse [] [], ops := rest, log := log })
+
+/-- `load` after `LoadEntry` answered nil: `SetEntry(placeholder)` -/
+def missStep (s : Sys) (l : Nat) (k : Key) : Sys × Ans :=
+  match (setEntry (s.ents l) k none).2 with
+  | .stored => (s.setEnts l (setEntry (s.ents l) k none).1, .notfound)
+  | .kept => (s.setEnts l (setEntry (s.ents l) k none).1, .notfound)
+  | _ => (s, .fault)                                                       -- a lookup must not raise
+
+def srcOf (l : Nat) (k : Key) : Option (Option V) → Src
+  | some (some v) => some (l, k, v)
+  | _ => none
+
+/-- one level of `parentedLoader.Discover`: the own iteration under the own RLock -/
+def discLevel (es : List Ents) (x : Nat) (found : List Key) (p : Key → Bool) : List Key :=
+  if (ownAdded es x found p).isEmpty then found else sortKeys (found ++ ownAdded es x found p)
+
 /-- one atomic step of one thread -/
 def stepThread (s : Sys) (t : Thread) : Sys × Thread :=
   match t.pc with
   | .idle =>
     match t.ops with
     | [] => (s, t)
-    | .load l n :: rest =>
-      if n.auth ≠ runtimeAuthority then (s, { t with ops := rest, log := t.log ++ [(.notfound, none)] })
-      else (s, { t with ops := rest, pc := .loadWalk l n (chain s.ps l).reverse (.searching [] none) })
-    | .define l n v :: rest =>
-      let r := define s l n v
-      (r.1, { t with ops := rest, log := t.log ++ [(r.2, none)] })
-    | .has l n :: rest => (s, { t with ops := rest, pc := .hasWalk l (canon n) (chain s.ps l).reverse })
-    | .get l n :: rest => (s, { t with ops := rest, pc := .getHold l (canon n) (lk (canon n) (s.ents l)) })
-    | .discover l p :: rest => (s, { t with ops := rest, pc := .discWalk l p (chain s.ps l).reverse [] [] })
-  | .loadWalk l n (x :: todo) st => (s, { t with pc := .loadWalk l n todo (walkLevel s (canon n) x st) })
-  | .loadWalk l n [] st =>
-    match st with
-    | .searching _ none => (s, { t with pc := .loadMiss l n })
-    | .searching _ (some _) => (s, { t with pc := .idle, log := t.log ++ [(.notfound, none)] })
-    | .foundAt _ x v => (s, { t with pc := .idle, log := t.log ++ [(.found v, some (x, canon n, v))] })
-  | .loadMiss l n =>
-    let r := setEntry (s.ents l) (canon n) none
-    match r.2 with
-    | .stored | .kept => (s.setEnts l r.1, { t with pc := .idle, log := t.log ++ [(.notfound, none)] })
-    | _ => (s, { t with pc := .idle, log := t.log ++ [(.fault, none)] })      -- a lookup must not raise
+    | op :: rest => startOp s t.log rest op
+  | .loadWalk l n (x :: todo) st => (s, { pc := .loadWalk l n todo (walkLevel s (canon n) x st), ops := t.ops, log := t.log })
+  | .loadWalk l n [] (.searching _ none) => (s, { pc := .loadMiss l n, ops := t.ops, log := t.log })
+  | .loadWalk _ _ [] (.searching _ (some _)) => (s, { pc := .idle, ops := t.ops, log := t.log ++ [(.notfound, none)] })
+  | .loadWalk _ n [] (.foundAt _ x v) => (s, { pc := .idle, ops := t.ops, log := t.log ++ [(.found v, some (x, canon n, v))] })
+  | .loadMiss l n => ((missStep s l (canon n)).1, { pc := .idle, ops := t.ops, log := t.log ++ [((missStep s l (canon n)).2, none)] })
   | .hasWalk l k (x :: todo) =>
-    if ownHas s.es x k then (s, { t with pc := .idle, log := t.log ++ [(.bool true, none)] })
-    else (s, { t with pc := .hasWalk l k todo })
-  | .hasWalk _ _ [] => (s, { t with pc := .idle, log := t.log ++ [(.bool false, none)] })
-  | .getHold l k e =>
-    (s, { t with pc := .idle, log := t.log ++ [(.entry e, match e with | some (some v) => some (l, k, v) | _ => none)] })
+    if ownHas s.es x k then (s, { pc := .idle, ops := t.ops, log := t.log ++ [(.bool true, none)] })
+    else (s, { pc := .hasWalk l k todo, ops := t.ops, log := t.log })
+  | .hasWalk _ _ [] => (s, { pc := .idle, ops := t.ops, log := t.log ++ [(.bool false, none)] })
+  | .getHold l k e => (s, { pc := .idle, ops := t.ops, log := t.log ++ [(.entry e, srcOf l k e)] })
   | .discWalk l p (x :: todo) passed found =>
-    let added := ownAdded s.es x found p
-    let found' := if added.isEmpty then found else sortKeys (found ++ added)
     match todo with
-    | [] => (s, { t with pc := .idle, log := t.log ++ [(.keys found', none)] })
-    | _ => (s, { t with pc := .discWalk l p todo (x :: passed) found' })
-  | .discWalk _ _ [] _ found => (s, { t with pc := .idle, log := t.log ++ [(.keys found, none)] })
+    | [] => (s, { pc := .idle, ops := t.ops, log := t.log ++ [(.keys (discLevel s.es x found p), none)] })
+    | _ :: _ => (s, { pc := .discWalk l p todo (x :: passed) (discLevel s.es x found p), ops := t.ops, log := t.log })
+  | .discWalk _ _ [] _ found => (s, { pc := .idle, ops := t.ops, log := t.log ++ [(.keys found, none)] })
 
 /-- thread `i` takes one step (nothing happens when there is no such thread) -/
 def stepAt (c : Config) (i : Nat) : Config :=
